@@ -896,6 +896,37 @@ impl Scenario for C06 {
         let known = run.known_hits.clone();
         let nbind = run.model.bindings.len();
         drop(run);
+        // a global bound to a built-in procedure, called by functions compiled
+        // earlier (in tail and in non-tail position, several times, so that the
+        // native tier has compiled them), then assigned, then redefined
+        if known.is_empty() {
+            let (p1, p2, p3, e1, e2, e3) = match spec.index % 3 {
+                0 => ("car", "cadr", "caddr", 1, 2, 3),
+                1 => ("length", "car", "cadr", 3, 1, 2),
+                _ => ("cadr", "caddr", "length", 2, 3, 3),
+            };
+            vmh::set_context("primitive-alias");
+            let pieces: Vec<(String, Option<String>)> = vec![
+                (format!("(define palias {})", p1), None),
+                ("(define (puse xs) (+ 0 (palias xs)))\n(define (puse-tail xs) (palias xs))\n(define (puse-arg xs) (list (palias xs)))".to_string(), None),
+                ("(define (ploop n acc) (if (= n 0) acc (ploop (- n 1) (+ (puse (list 1 2 3)) (puse-tail (list 1 2 3)) (car (puse-arg (list 1 2 3)))))))\n(ploop 40 0)".to_string(), Some((3 * e1).to_string())),
+                (format!("(set! palias {})", p2), None),
+                ("(list (puse (list 1 2 3)) (puse-tail (list 1 2 3)) (puse-arg (list 1 2 3)) (palias (list 1 2 3)))".to_string(), Some(format!("({e} {e} ({e}) {e})", e = e2))),
+                (format!("(define palias {})", p3), None),
+                ("(list (puse (list 1 2 3)) (puse-tail (list 1 2 3)) (palias (list 1 2 3)))".to_string(), Some(format!("({} {} {})", e2, e2, e3))),
+            ];
+            for (src, expect) in pieces {
+                let src = src.replace("\\n", "\n");
+                match (vmh::eval(&mut engine, &src).map(|v| v.last().cloned().unwrap_or_default()), expect) {
+                    (Ok(got), Some(exp)) if got != exp => report::violation(
+                        "C06/wrong-value/global-bound-to-a-built-in-procedure",
+                        format!("{} gave {}, the binding model says {} (palias was {} / set! to {} / redefined as {})", src, got, exp, p1, p2, p3),
+                    ),
+                    (Err(e), _) => report::violation("C06/wrong-value/global-bound-to-a-built-in-procedure", format!("{} failed: {}", src, e)),
+                    _ => {}
+                }
+            }
+        }
         report::set_extra("bindings", json!(nbind));
         report::set_nontrivial(nbind >= 3);
         if nbind > 20 {
